@@ -43,6 +43,7 @@ class Gen:
         self.bare = 0.0  # probability that a setup/launch statement is a bare launch on a visible state instead
         self.before = False  # the module holds ANOTHER function of the same form in front of @f (each function is compiled as if alone)
         self.callee = False  # the module DEFINES a function @h that programs the accelerators; @f calls it without annotation
+        self.opaque = 0.0  # probability that an "unannotated call" statement is an opaque non-call operation (annotated or not)
         self.statearg = False  # @f receives the current state of each accelerator as an ARGUMENT (unknown contents); first setups link to it
         self.readcall = 0.0  # probability that a pure-arithmetic statement is instead a call returning a value (impure input of setups)
         self.nested = 0.0  # probability that a loop body is "setup/launch/await of one accelerator, then an inner loop of the same form"
@@ -226,6 +227,14 @@ class Gen:
                 out += self.effect_nest(ind, self.r.randint(1, 3))
                 for _k in [k for k in cur if not k.startswith('_')]:
                     del cur[_k]
+            elif k < 0.61 and self.opaque and self.r.random() < self.opaque:
+                # an operation that is not a call: it touches the registers iff it is annotated accfg.effects<full>
+                ann = self.r.choice(['', ' {"accfg.effects" = #accfg.effects<full>}', ' {"accfg.effects" = #accfg.effects<full>}',
+                                     ' {"accfg.effects" = #accfg.effects<none>}'])
+                out.append(f'{ind}"test.op"(){ann} : () -> ()')
+                if "full" in ann:
+                    for _k in [k for k in cur if not k.startswith('_')]:
+                        del cur[_k]
             elif k < 0.61:
                 out.append(f"{ind}func.call @{'h' if self.callee and self.r.random() < 0.7 else 'g'}() : () -> ()")
                 for _k in [k for k in cur if not k.startswith('_')]:
@@ -290,6 +299,8 @@ class Gen:
     def effect_nest(self, ind, depth):
         """control flow WITHOUT setups that hides one unannotated call at a random leaf (then/else branch, loop body, any depth)"""
         if depth == 0:
+            if self.opaque and self.r.random() < self.opaque:
+                return [f'{ind}"test.op"() {{"accfg.effects" = #accfg.effects<full>}} : () -> ()']
             return [f"{ind}func.call @g() : () -> ()"]
         k = self.r.random()
         inner = self.effect_nest(ind + "  ", depth - 1)
@@ -624,11 +635,10 @@ def run_op(op: Operation, env, m: Machine):
                 m.regs[k] = -(CLOB + 500 + m.nreads)
         for r in op.results:
             env[r] = v
-    elif isinstance(op, (func.CallOp,)):
-        eff = op.attributes.get("accfg.effects")
+    elif isinstance(op, (func.CallOp,)) or is_opaque(op):
         m.ncalls += 1
         tag = m.calltag[op] if m.calltag is not None else m.ncalls
-        if eff is None or eff.data != accfg.EffectsEnum.NONE:
+        if call_has_effects(op):
             for k in set(m.regs) | set(m.universe):
                 m.regs[k] = -(CLOB + tag)
         m.trace.append(("call", tag))
@@ -673,11 +683,22 @@ def well_formed_regions(module) -> bool:
 
 
 def call_has_effects(op) -> bool:
-    """The effect class of a call as the property states it (computed from the IR alone, NOT with the repository's
-    has_accfg_effects): a call clobbers every register unless it carries accfg.effects<none> — whatever the callee is."""
+    """The effect class of a call / an opaque operation as the property states it (computed from the IR alone, NOT with the
+    repository's has_accfg_effects): an annotation accfg.effects<none|full> decides; without annotation a call clobbers every
+    register — whatever the callee is — and any other operation does not."""
     from snaxc.dialects import accfg
     eff = op.attributes.get("accfg.effects")
-    return not (isinstance(eff, accfg.EffectsAttr) and eff.data == accfg.EffectsEnum.NONE)
+    if isinstance(eff, accfg.EffectsAttr):
+        return eff.data != accfg.EffectsEnum.NONE
+    return isinstance(op, func.CallOp)
+
+
+def is_opaque(op) -> bool:
+    """an operation of an unregistered dialect without operands, results and regions (inline assembly, a runtime hook): an event
+    of the trace like a call; whether it touches the accelerator registers is given by its accfg.effects annotation"""
+    from xdsl.dialects.builtin import UnregisteredOp
+    from xdsl.dialects.test import TestOp
+    return isinstance(op, (UnregisteredOp, TestOp)) and not op.operands and not op.results and not op.regions
 
 
 def find_func(module, name="f"):
@@ -872,7 +893,7 @@ class Conv:
         if isinstance(op, arith.IndexCastOp):
             a = [self.use(op.input)]
             return ["pure", self.var(op.result), ["cast"], a]
-        if isinstance(op, func.CallOp):
+        if isinstance(op, func.CallOp) or is_opaque(op):
             self.ncall += 1
             self.calltag[op] = self.ncall
             if op.operands or op.results:
